@@ -168,6 +168,16 @@ def trackM (k : Consts α) (e : Elem α) (b : MBeam α) : MBeam α :=
 
 end Elem
 
+/-- `split(resolution)`: Drift and Quadrupole into `ceil(L/res)` equal pieces, correctors into at least one
+piece with the angle divided, every other element unsplit -/
+def Elem.split (e : Elem α) (res : α) : List (Elem α) :=
+  match e with
+  | .drift L => let n := ceilNat (L / res); List.replicate n (.drift (L / ofNat n))
+  | .quad L k1 mx my t => let n := ceilNat (L / res); List.replicate n (.quad (L / ofNat n) k1 mx my t)
+  | .hcor L a => let n := max (ceilNat (L / res)) 1; List.replicate n (.hcor (L / ofNat n) (a / ofNat n))
+  | .vcor L a => let n := max (ceilNat (L / res)) 1; List.replicate n (.vcor (L / ofNat n) (a / ofNat n))
+  | e => [e]
+
 /-- the semantics record for `ParticleBeam` tracking -/
 def semP (k : Consts α) : Sem (Elem α) (PBeam α) (Mat7 α) α where
   one := Mat7.one
